@@ -162,7 +162,51 @@ def work_text(payload, skip, report):
     return acc
 
 
+# Library histories: a template that is called while it does not exist yet, defined afterwards, redefined, and called
+# again - directly and from the body of another template.  After every step the page expands as on a fresh context that
+# holds the library of that moment.
+HIST_STEPS = [("add", "hwrap", "({{hlate|{{{1|}}}}})"), ("use",), ("add", "hlate", "L[{{{1|}}}]"), ("use",), ("add", "hlate", "M[{{{1|}}}]"),
+              ("use",), ("add", "Hcap", "C"), ("use",), ("add", "hwrap", "<{{hlate|{{{1|}}}|}}>"), ("use",)]
+HIST_PAGES = ["{{hlate|x}}", "{{hwrap|y}}", "{{hcap}}{{Hcap}}", "{{#if:1|{{hlate|z}}}}"]
+
+
+def work_history(payload, skip, report):
+    acc = Acc(PROP)
+    i = 0
+    for order in (HIST_STEPS, [s for s in HIST_STEPS if s[0] == "add"] + [("use",)]):
+        ctx = new_ctx()
+        lib = {}
+        for k, step in enumerate(order):
+            if step[0] == "add":
+                ctx.add_page("Template:" + step[1], 10, step[2])
+                lib[step[1]] = step[2]
+                continue
+            fresh = new_ctx()
+            for n, b in lib.items():
+                fresh.add_page("Template:" + n, 10, b)
+            for page in HIST_PAGES:
+                report(i)
+                i += 1
+                fresh.start_page("Tt")
+                want = fresh.expand(page)
+                ctx.start_page("Tt")
+                try:
+                    got = ctx.expand(page)
+                except Exception as e:
+                    got = "EXC " + type(e).__name__ + ": " + str(e)[:80]
+                acc.case()
+                acc.count("history_cases")
+                if got != want:
+                    acc.violation("expands_as_with_the_current_library", {"steps": [list(s) for s in order[:k + 1]], "page": page}, got, want)
+            close_ctx(fresh)
+        close_ctx(ctx)
+    acc.sample({"steps": [list(s) for s in HIST_STEPS[:4]], "page": HIST_PAGES[0]})
+    return acc
+
+
 def replay(case):
+    if "steps" in case:
+        return None
     # replays by text: library bodies and page text are stored rendered
     ctx = new_ctx()
     try:
@@ -217,6 +261,8 @@ def main(run):
         run.acc.merge(acc)
     for cid, acc, hung in run_chunks(work_text, [TEXT_CASES], nproc=1, case_timeout=30):
         run.acc.merge(acc)
+    for cid, acc, hung in run_chunks(work_history, [("history",)], nproc=1, case_timeout=30):
+        run.acc.merge(acc)
     cov = {
         "distinct_nontrivial": len(run.acc.sets.get("outputs", ())),
         "rule": "every (library, page) with total AST size <= %d: libraries of 0..2 templates (b may call c; call graph acyclic by "
@@ -224,7 +270,8 @@ def main(run):
                 "Call(positional/named args) | #if | #ifeq | #switch | sequence, nesting depth <= 4, over %d text atoms with "
                 "leading/trailing/interior blanks, newline and list-marker starts, %d parameter names, %d argument-key forms; plus "
                 "every inclusion wrapper (%d) x bodies of size <= 2 x calling pages; %d explicit text cases with computed argument names "
-                "and '='-containing values forwarded through parameters. Distinct = distinct reference outputs."
+                "and '='-containing values forwarded through parameters; two library histories (templates called before they exist, defined, redefined) "
+                "compared step by step with fresh contexts. Distinct = distinct reference outputs."
                 % (total, len(g.atoms), len(g.names), len(g.keys), len(WRAPPERS), len(TEXT_CASES)),
         "exhaustive": True,
     }
